@@ -364,6 +364,10 @@ def install_models(P):
     def _(m, fr, a, mm):
         v = a[0]
         ut = 'u' + mm.group(1)[1:]
+        if v.negof is not None:
+            return v.negof
+        if v.dec is not None:
+            return I(v.v, ut, dec=v.dec)
         if not v.sym():
             return I(abs(v.sval()), ut)
         x = v.v
